@@ -80,7 +80,8 @@ Lemma refresh_side_pres evl g w e sd en mx w1 :
                e_ign en2 = e_ign en /\ maxchg en2 <= N.max (maxchg en) (now (w_st w2))) /\
   (forall x sd0, x <> e -> getx w2 x sd0 = getx w x sd0) /\ getx w2 e (negb sd) = getx w e (negb sd) /\
   now (w_st w) <= now (w_st w2) /\ x_tfile (getx w2 e sd) = x_tfile (getx w e sd) /\
-  length (ents (w_st w2)) = length (ents (w_st w)).
+  length (ents (w_st w2)) = length (ents (w_st w)) /\
+  (forall x, set_mem x (cset (w_st w)) = true -> set_mem x (cset (w_st w2)) = true).
 Proof.
   intros I He Hn Hmx H w2.
   destruct (uget_latest_spec evl g w e sd en I He Hn) as (w' & en' & m & H1 & W1 & P1 & Hot & Hfull & Hnone).
@@ -116,6 +117,14 @@ Proof.
     - intros x Hne. rewrite SB. destruct m; [destruct (Nat.eqb_spec x e); [contradiction|reflexivity]|reflexivity].
     - intros Hfl. rewrite SB. destruct (flagged_prog _ _ _ _ _ P1) as [(Hm & Hf)|Hm]; subst m; [|rewrite Nat.eqb_refl; reflexivity].
       apply (i_csc _ _ _ I e en Hn). rewrite <- Hf. exact Hfl.
+    - intros Hm. rewrite SB in Hm. destruct P1 as (Pother' & _ & Poid' & _ & _ & _ & [(Hc0 & Hm0)|(t & Hc0 & Ht0 & _ & _ & Hm0)]); subst m.
+      + assert (Hfe: flagged en' = flagged en) by (unfold flagged; destruct sd; simpl in *; rewrite Pother', Poid', Hc0; reflexivity).
+        rewrite Hfe. apply (i_cse _ _ _ I e en Hn Hm).
+      + apply (flagged_side en' sd); [rewrite Hc0; exact Ht0|]. rewrite Poid'.
+        destruct (s_oid (gs en sd)) as [o|] eqn:Eo.
+        * destruct (so_full _ _ _ _ _ _ (eo_side _ _ _ _ _ EO sd) o Eo) as (k0 & ob0 & -> & _). reflexivity.
+        * exfalso. destruct (Hnone eq_refl) as (_ & _ & Hcs0 & _).
+          destruct (so_empty _ _ _ _ _ _ (eo_side _ _ _ _ _ EO sd) Eo) as (Hf0 & _). rewrite Hcs0 in Hc0. rewrite Hc0 in Hf0. rewrite Ht0 in Hf0. discriminate.
     - exact SC.
     - rewrite SD. pose proof (i_clk _ _ _ I). lia.
     - exact Hmax'.
@@ -165,7 +174,9 @@ Proof.
       rewrite Hst. clear - Pother Pchg. unfold maxchg, chgv in *. destruct sd; cbn [gs negb] in *; rewrite ?Pother;
         (destruct Pchg as [(Pc & _)|(t & Pc & _ & _ & Pt & _)]; rewrite Pc; cbn [chgval]; lia).
     + split; [exact Hgo|]. split; [exact Hgs|]. split; [rewrite Hst; exact SC|]. split; [rewrite Hgsd; reflexivity|].
-      rewrite Hst, SA. apply length_list_upd.
+      split; [rewrite Hst, SA; apply length_list_upd|].
+      intros x Hm. rewrite Hst, SB. destruct (flagged_prog _ _ _ _ _ P1) as [(Hm0 & _)|Hm0]; subst m; [exact Hm|].
+      destruct (Nat.eqb x e); [reflexivity|exact Hm].
 Qed.
 
 (* ------------------------------------------------------------------ get_latest *)
@@ -175,17 +186,18 @@ Lemma get_latest_loop_pres evl g e force mx : forall sides w w',
   InvP evl g w' /\ (forall sd0, prov_of w' sd0 = prov_of w sd0) /\
   (forall x sd0, x <> e -> getx w' x sd0 = getx w x sd0) /\ now (w_st w) <= now (w_st w') /\
   (exists en', nth_error (ents (w_st w')) e = Some en') /\ (forall sd0, x_tfile (getx w' e sd0) = x_tfile (getx w e sd0)) /\
-  length (ents (w_st w')) = length (ents (w_st w)).
+  length (ents (w_st w')) = length (ents (w_st w)) /\
+  (forall x, set_mem x (cset (w_st w)) = true -> set_mem x (cset (w_st w')) = true).
 Proof.
   induction sides as [|sd r IH]; intros w w' I He (en & Hn) Hmx H.
   - simpl in H. injection H as <-. split; [exact I|]. split; [auto|]. split; [auto|]. split; [apply N.le_refl|]. split; [eauto|auto].
   - simpl in H. destruct (force || N.ltb (x_lg (getx w e sd)) mx)%bool.
     + destruct (uget_latest w e sd) as [wa|c] eqn:Eu; [|discriminate]. cbn [rbind] in H.
-      destruct (refresh_side_pres evl g w e sd en mx wa I He Hn Hmx Eu) as (I2 & _ & Hp2 & (en2 & Hn2 & _) & Hg2 & Hgo2 & Hnow2 & Htf2 & Hlen2).
+      destruct (refresh_side_pres evl g w e sd en mx wa I He Hn Hmx Eu) as (I2 & _ & Hp2 & (en2 & Hn2 & _) & Hg2 & Hgo2 & Hnow2 & Htf2 & Hlen2 & Hmono2).
       change (setx wa e sd (fun x => mkX mx (x_tname x) (x_tfile x))) with (setx wa e sd (set_lg mx)) in H.
-      destruct (IH _ _ I2 He (ex_intro _ en2 Hn2) ltac:(lia) H) as (I3 & Hp3 & Hg3 & Hnow3 & Hen3 & Htf3 & Hlen3).
+      destruct (IH _ _ I2 He (ex_intro _ en2 Hn2) ltac:(lia) H) as (I3 & Hp3 & Hg3 & Hnow3 & Hen3 & Htf3 & Hlen3 & Hmono3).
       split; [exact I3|]. split; [intros; rewrite Hp3; apply Hp2|]. split; [intros; rewrite Hg3 by assumption; apply Hg2; assumption|]. split; [lia|]. split; [exact Hen3|].
-      split; [|congruence].
+      split; [|split; [congruence|intros x Hm; apply Hmono3; apply Hmono2; exact Hm]].
       intros sd0. rewrite Htf3. destruct (Bool.bool_dec sd0 sd) as [->|Hne]; [exact Htf2|].
       assert (sd0 = negb sd) by (destruct sd0, sd; try reflexivity; contradiction). subst sd0. rewrite Hgo2. reflexivity.
     + cbn [rbind] in H. apply (IH _ _ I He (ex_intro _ en Hn) Hmx H).
@@ -198,7 +210,8 @@ Theorem get_latest_pres evl g w e force sides w' :
   InvP evl g w -> (2 <= e)%nat -> get_latest w e force sides = ROk w' ->
   InvP evl g w' /\ (forall sd0, prov_of w' sd0 = prov_of w sd0) /\
   (forall x sd0, x <> e -> getx w' x sd0 = getx w x sd0) /\ now (w_st w) <= now (w_st w') /\
-  (forall sd0, x_tfile (getx w' e sd0) = x_tfile (getx w e sd0)) /\ length (ents (w_st w')) = length (ents (w_st w)).
+  (forall sd0, x_tfile (getx w' e sd0) = x_tfile (getx w e sd0)) /\ length (ents (w_st w')) = length (ents (w_st w)) /\
+  (forall x, set_mem x (cset (w_st w)) = true -> set_mem x (cset (w_st w')) = true).
 Proof.
   intros I He H. unfold get_latest, get_e, lift, get_ent in H.
   destruct (nth_error (ents (w_st w)) e) as [en|] eqn:Hn; [|discriminate]. cbn [rbind] in H.
@@ -206,7 +219,7 @@ Proof.
   assert (Hmx: mx <= now (w_st w) + 1).
   { destruct (i_clke _ _ _ I e en Hn) as (Hm & _). unfold mx. clear H mx. unfold maxchg, chgv in Hm.
     induction sides as [|sd r IHs]; simpl; [lia|]. destruct sd; simpl; lia. }
-  destruct (get_latest_loop_pres evl g e force mx sides w w' I He (ex_intro _ en Hn) Hmx H) as (A & B & C & D & _ & F & G). auto 10.
+  destruct (get_latest_loop_pres evl g e force mx sides w w' I He (ex_intro _ en Hn) Hmx H) as (A & B & C & D & _ & F & G & M). auto 12.
 Qed.
 
 (* the refresh of both sides before an entry is synchronised *)
